@@ -852,9 +852,12 @@ fn check(rc: &RCase, min_modules: usize) -> Checked {
     }
 
     let b = run_boa(rc);
-    let v8 = match run_v8(rc) {
-        Ok(v) => v,
-        Err(e) => return Checked { fail: None, labels, nontrivial: false, skip: Some(format!("oracle-error: {}", e.chars().take(80).collect::<String>())) },
+    // (node 20's V8 aborts on a CHECK in SourceTextModule::Evaluate for a few graphs that mix a cycle, a
+    // rejected top-level-await module and a second entry: the case is then decided by the oracle-free
+    // invariants only and reported as skipped)
+    let (v8, v8_error) = match run_v8(rc) {
+        Ok(v) => (v, None),
+        Err(e) => (V8Out { results: vec!["unavailable".to_string(); rc.entries.len()], ..V8Out::default() }, Some(format!("oracle-error: {}", e.chars().take(80).collect::<String>()))),
     };
     let boa_txt = format!("--- boa\n{}", show(&b.prints, &b.stage_prints, &b.results));
     let v8_txt = format!("--- v8\n{}", show(&v8.prints, &v8.stage_prints, &v8.results));
@@ -934,7 +937,7 @@ fn check(rc: &RCase, min_modules: usize) -> Checked {
         }
         let want: BTreeSet<String> = pc.closure(&roots).iter().map(|i| pc.names[*i].clone()).collect();
         let got: BTreeSet<String> = b.fetched.iter().cloned().collect();
-        if b.fetched.len() != got.len() || want != got {
+        if (b.fetched.len() != got.len() || want != got) && !(v8_error.is_some() && has_dyn) {
             return fail("loaded set".into(), format!("modules fetched by boa: {:?}\nexpected (static closure of the entries and of the executed dynamic imports): {want:?}", b.fetched), labels);
         }
         // 3c. an entry rejects iff it reaches a throwing module, with one of their classes
@@ -980,6 +983,12 @@ fn check(rc: &RCase, min_modules: usize) -> Checked {
         }
     }
 
+    if let Some(why) = &v8_error {
+        if has_dyn || !pc.body_ok || mo.as_ref().is_none_or(|m| m.async_seen) {
+            return Checked { fail: None, labels, nontrivial: false, skip: Some(why.clone()) };
+        }
+    }
+
     // 4. M: the reference model, when every module is evaluated synchronously
     if let Some(m) = &mo {
         if pc.body_ok && !m.async_seen {
@@ -1012,6 +1021,11 @@ fn check(rc: &RCase, min_modules: usize) -> Checked {
             }
             labels.push("checked-by-model");
         }
+    }
+
+    if v8_error.is_some() {
+        labels.push("v8-unavailable-decided-by-model");
+        return Checked { fail: None, labels, nontrivial: false, skip: None };
     }
 
     // 5. D-ext: V8
@@ -1107,6 +1121,11 @@ fn check(rc: &RCase, min_modules: usize) -> Checked {
 fn to_out(rendered: String, c: Checked, mut extra: Vec<&'static str>) -> CaseOut {
     extra.extend(c.labels);
     if let Some(why) = c.skip {
+        if let Some(dir) = std::env::var_os("BV_C17_DUMPSKIP") {
+            // diagnostic: keep the inputs the oracle could not decide
+            let path = std::path::Path::new(&dir).join(format!("{:016x}.json", crate::rng::hash_bytes(rendered.as_bytes())));
+            let _ = std::fs::write(path, &rendered);
+        }
         return CaseOut::skip(rendered, why).with_labels(extra);
     }
     match c.fail {
